@@ -198,5 +198,5 @@ def phases(tier):
   return [
       {'name': 'shipped_files', 'kind': 'enum', 'items': shipped_files, 'run': run_file},
       {'name': 'roundtrip', 'kind': 'hyp', 'strategy': cases, 'run': check_case,
-       'examples': int((40000 if big else 2500) * k)},
+       'examples': int((160000 if big else 2500) * k)},
   ]
